@@ -28,7 +28,7 @@ def run(ctx):
         if quick:
             return [
                 # layouts of groups, then the retention is shortened and the service runs
-                ('layout', dict(common, R0=0, Rets=[0, 2, 3, 5], MaxBatch=1, MaxOps=4, MaxWrites=2), 8000),
+                ('layout', dict(common, R0=0, Rets=[0, 2, 3, 5], MaxBatch=1, MaxOps=4, MaxWrites=2), 10000),
                 # deletion stamps age and the next pass prunes
                 ('prune', dict(common, R0=0, Rets=[3], MaxBatch=1, MaxOps=5, MaxWrites=1, PointPos=[20, 28, 37]), 4000),
                 # requests of two points under a finite retention: dropped counts
